@@ -35,6 +35,7 @@ MC_THOROUGH = [('MC_nest.cfg', 1500), ('MC_tiny.cfg', 900)]
 
 PROPS = {
     'C01': {
+        'repotests': True,
         'mc_quick': ['MC_quick.cfg'], 'mc_thorough': MC_THOROUGH,
         'title': 'Cache transparency',
         'units': [('swap', 1200, 15000), ('subcache', 600, 8000), ('general', 1500, 30000), ('nested', 1500, 30000), ('rebuild', 500, 10000), ('foreign', 500, 8000),
@@ -48,6 +49,7 @@ PROPS = {
                 'that had a record (so both directions of the reuse rule were exercised)',
     },
     'C02': {
+        'repotests': True,
         'mc_quick': ['MC_quick_clean.cfg'], 'mc_thorough': MC_THOROUGH,
         'title': 'Rollback',
         'units': [('swap', 1500, 20000), ('subcache', 500, 6000), ('crash', 2000, 40000), ('forcrash', 800, 15000), ('foreign', 400, 6000),
@@ -60,6 +62,7 @@ PROPS = {
                 'prefix; non-trivial = at least one rolled-back build and one committed build in the trace',
     },
     'C03': {
+        'repotests': True,
         'fslog': True,
         'mc_quick': ['MC_quick_clean.cfg'], 'mc_thorough': [('MC_tiny.cfg', 600)],
         'title': 'Foreign files',
@@ -72,6 +75,7 @@ PROPS = {
                 'build/clean calls judged against a tree that contains foreign files',
     },
     'C04': {
+        'repotests': True,
         'mc_quick': ['MC_quick.cfg'], 'mc_thorough': MC_THOROUGH,
         'title': 'Virtual view',
         'units': [('swap', 800, 10000), ('forcrash', 600, 8000), ('probe', 700, 12000), ('general', 500, 8000), ('nested', 1000, 15000), ('bfcontract', 300, 5000),
@@ -82,6 +86,7 @@ PROPS = {
                 'non-trivial = at least 10 judged answers in the trace',
     },
     'C05': {
+        'repotests': True,
         'mc_quick': ['MC_quick.cfg'], 'mc_thorough': MC_THOROUGH,
         'title': 'Cache effectiveness',
         'units': [('rebuild', 2000, 40000), ('nested', 2500, 40000), ('rebuildclean', 800, 10000), ('general', 700, 10000),
@@ -116,6 +121,7 @@ PROPS = {
                 'spec decides with JsonVal!Eq / Canon; non-trivial = both a hit-or-duplicate and an execution occur',
     },
     'C08': {
+        'repotests': True,
         'mc_quick': ['MC_quick_nest.cfg', ('Conc_B.cfg', 300, 'FBConcMC.tla'), ('Conc_E.cfg', 300, 'FBConcMC.tla')],
         'mc_thorough': [('MC_nest.cfg', 1500)],
         'title': 'At most one execution per key',
@@ -176,6 +182,7 @@ PROPS = {
                 'served from the cache, or a cache-write fault was injected',
     },
     'C15': {
+        'repotests': True,
         'mc_quick': ['MC_quick_clean.cfg'], 'sim': None,
         'title': 'Refused calls',
         'units': [('subcache', 0, 0), ('refuse', 4000, 60000)],
@@ -207,6 +214,7 @@ PROPS = {
                 'forced or random preemption',
     },
     'C17': {
+        'repotests': True,
         'mc_quick': [('Fence_nested.cfg', 120, 'FBFence.tla'), ('Fence_root.cfg', 120, 'FBFence.tla')], 'sim': None,
         'title': 'Finished builders are fenced off',
         'units': [('stale', 2500, 30000)],
@@ -222,6 +230,7 @@ PROPS = {
                 'non-trivial = stale calls were made, or a preemption was forced',
     },
     'C10': {
+        'repotests': True,
         'mc_quick': ['MC_quick.cfg'], 'mc_thorough': [('MC_nest.cfg', 1500)],
         'title': 'build_file contract',
         'units': [('nested', 1500, 20000), ('swap', 600, 8000), ('bfcontract', 2000, 30000), ('probe', 300, 5000), ('regress', 0, 0)],
@@ -235,6 +244,7 @@ PROPS = {
                 'calls; non-trivial = a setup failure or at least three executed calls',
     },
     'C12': {
+        'repotests': True,
         'mc_quick': ['MC_quick_clean.cfg'], 'mc_thorough': [('MC_tiny.cfg', 900)],
         'title': 'clean',
         'units': [('swap', 800, 10000), ('subcache', 800, 10000), ('clean', 2000, 30000), ('rebuildclean', 2000, 30000), ('nested', 1500, 20000), ('foreign', 300, 5000)],
